@@ -58,29 +58,42 @@ type c09Obs struct {
 }
 
 type c09Case struct {
-	Name      string   `json:"name"`
-	Conn      string   `json:"conn"` // accept | refuse | stall | accept-close | noread
-	Acts      []c09Act `json:"acts"`
-	Callers   int      `json:"callers"`
-	Calls     int      `json:"calls"` // per caller, sequential
-	TimeoutMs int      `json:"timeout_ms"`
-	CtxMs     int      `json:"ctx_ms"`      // > 0: the caller's context carries this deadline
-	PerCallMs int      `json:"per_call_ms"` // > 0: current.SetClientTimeout
-	DialMs    int      `json:"dial_ms"`
-	WriteMs   int      `json:"write_ms"`
-	ReadMs    int      `json:"read_ms"`
-	QueueLen  int      `json:"queue_len"`
-	ReqSize   int      `json:"req_size"`
-	Filter    string   `json:"filter"` // prepost | cf
-	GapMs     int      `json:"gap_ms"`
-	OneWay    bool     `json:"one_way"`  // one-way calls (no reply expected; monitors only)
-	Procs     int      `json:"procs"`    // > 0: GOMAXPROCS of the scenario process
-	ObjMax    int      `json:"obj_max"`  // > 0: ObjQueueMax (calls allowed inside doInvoke)
-	EarlyMs   int      `json:"early_ms"` // noread-early: when the peer writes its unsolicited replies
-	Prime     bool     `json:"prime"`    // one call (answered at once) establishes the connection before the callers start
-	Warm      bool     `json:"warm"`     // the adapter proxy exists before the first call (concurrent first callers share it)
-	Predict   bool     `json:"predict"`  // outcome classes and times are determined by the script (sent to the model's canonical run)
-	Obs       *c09Obs  `json:"obs,omitempty"`
+	Name        string   `json:"name"`
+	Conn        string   `json:"conn"` // accept | refuse | stall | accept-close | noread
+	Acts        []c09Act `json:"acts"`
+	Callers     int      `json:"callers"`
+	Calls       int      `json:"calls"` // per caller, sequential
+	TimeoutMs   int      `json:"timeout_ms"`
+	CtxMs       int      `json:"ctx_ms"`      // > 0: the caller's context carries this deadline
+	PerCallMs   int      `json:"per_call_ms"` // > 0: current.SetClientTimeout
+	DialMs      int      `json:"dial_ms"`
+	WriteMs     int      `json:"write_ms"`
+	ReadMs      int      `json:"read_ms"`
+	QueueLen    int      `json:"queue_len"`
+	ReqSize     int      `json:"req_size"`
+	Filter      string   `json:"filter"` // prepost | cf
+	GapMs       int      `json:"gap_ms"`
+	HandshakeMs int      `json:"handshake_ms"` // tls-slow: delay of the peer's side of the TLS handshake
+	IdleMs      int      `json:"idle_ms"`      // > 0: the client's idle timeout (the sender goroutine checks it once per second)
+	Gaps        []int    `json:"gaps"`         // pause after the j-th call of a caller (overrides gap_ms; the last one repeats)
+	OneWay      bool     `json:"one_way"`      // one-way calls (no reply expected; monitors only)
+	Procs       int      `json:"procs"`        // > 0: GOMAXPROCS of the scenario process
+	ObjMax      int      `json:"obj_max"`      // > 0: ObjQueueMax (calls allowed inside doInvoke)
+	EarlyMs     int      `json:"early_ms"`     // noread-early: when the peer writes its unsolicited replies
+	Prime       bool     `json:"prime"`        // one call (answered at once) establishes the connection before the callers start
+	Warm        bool     `json:"warm"`         // the adapter proxy exists before the first call (concurrent first callers share it)
+	Predict     bool     `json:"predict"`      // outcome classes and times are determined by the script (sent to the model's canonical run)
+	Obs         *c09Obs  `json:"obs,omitempty"`
+}
+
+func (c *c09Case) gap(j int) int {
+	if len(c.Gaps) == 0 {
+		return c.GapMs
+	}
+	if j < len(c.Gaps) {
+		return c.Gaps[j]
+	}
+	return c.Gaps[len(c.Gaps)-1]
 }
 
 func (c *c09Case) eff() int {
@@ -128,10 +141,23 @@ func c09RunScenario(c *c09Case) *c09Obs {
 		runtime.GOMAXPROCS(c.Procs)
 	}
 	log := &c09Log{t0: time.Now()}
-	peer, err := newC09Peer(log, c.Conn, c.Acts)
-	if peer != nil {
-		peer.earlyMs, peer.earlyN = c.EarlyMs, c.Callers*c.Calls
+	var tlsm *c09TLS
+	if strings.HasPrefix(c.Conn, "tls") {
+		var terr error
+		if tlsm, terr = c09NewTLS(); terr != nil {
+			obs.Fatal = "tls material: " + terr.Error()
+			return obs
+		}
 	}
+	peer, err := newC09Peer(log, c.Conn, c.Acts, func(p *c09Peer) {
+		p.earlyMs, p.earlyN, p.hsMs = c.EarlyMs, c.Callers*c.Calls, c.HandshakeMs
+		if tlsm != nil {
+			p.tlsConf = tlsm.server
+			if c.Conn == "tls-untrusted" {
+				p.tlsConf = tlsm.untrusted
+			}
+		}
+	})
 	if err != nil {
 		obs.Fatal = "peer: " + err.Error()
 		return obs
@@ -142,6 +168,12 @@ func c09RunScenario(c *c09Case) *c09Obs {
 	comm.Client.ClientWriteTimeout = time.Duration(c.WriteMs) * time.Millisecond
 	comm.Client.ClientReadTimeout = time.Duration(c.ReadMs) * time.Millisecond
 	comm.Client.ClientQueueLen = c.QueueLen
+	if c.IdleMs > 0 {
+		comm.Client.ClientIdleTimeout = time.Duration(c.IdleMs) * time.Millisecond
+	}
+	if tlsm != nil {
+		tars.VerifSetClientTLS(comm, tlsm.client)
+	}
 	if c.ObjMax > 0 {
 		comm.Client.ObjQueueMax = int32(c.ObjMax)
 	}
@@ -149,6 +181,9 @@ func c09RunScenario(c *c09Case) *c09Obs {
 	proto := "tcp"
 	if strings.HasPrefix(c.Conn, "udp") {
 		proto = "udp"
+	}
+	if tlsm != nil {
+		proto = "ssl"
 	}
 	comm.StringToProxy(fmt.Sprintf("VerifApp.C09Server.C09Obj@%s -h 127.0.0.1 -p %d -t 60000", proto, peer.port), h)
 	sp, ok := h.s.(*tars.ServantProxy)
@@ -302,8 +337,8 @@ func c09RunScenario(c *c09Case) *c09Obs {
 			<-start
 			for j := 0; j < c.Calls; j++ {
 				doCall(k*c.Calls+j, k)
-				if c.GapMs > 0 && j+1 < c.Calls {
-					time.Sleep(time.Duration(c.GapMs) * time.Millisecond)
+				if g := c.gap(j); g > 0 && j+1 < c.Calls {
+					time.Sleep(time.Duration(g) * time.Millisecond)
 				}
 			}
 		}(k)
@@ -356,7 +391,11 @@ func c09RunScenario(c *c09Case) *c09Obs {
 			maxDelay = a.DelayMs
 		}
 	}
-	hang := time.Duration(c.Calls*(c.eff()+c.GapMs+c.DialMs*c.Callers+c.WriteMs)+4000) * time.Millisecond
+	gaps := 0
+	for j := 0; j+1 < c.Calls; j++ {
+		gaps += c.gap(j)
+	}
+	hang := time.Duration(c.Calls*(c.eff()+c.DialMs*c.Callers+c.WriteMs)+gaps+4000) * time.Millisecond
 	select {
 	case <-done:
 	case <-time.After(hang):
@@ -446,12 +485,14 @@ func c09Exec(c *c09Case) *c09Obs {
 // c09Nominal is the latest return time (ms) a call with this outcome should show when the machine is not overloaded.
 func c09Nominal(c *c09Case, rank int, r c09CallObs) int64 {
 	switch {
-	case c.Conn == "stall":
+	case c.Conn == "stall" || c.Conn == "tls-silent":
 		return int64((rank + 1) * c.DialMs)
 	case strings.HasPrefix(c.Conn, "noread") && r.Out == "error":
 		return int64(c.WriteMs)
 	case c.Conn == "noread-early" && r.Out == "reply":
 		return int64(c.EarlyMs)
+	case c.Conn == "tls-slow" && r.Out == "error":
+		return int64(c.DialMs)
 	case r.Out == "error", r.Out == "oneway":
 		return 0
 	default:
@@ -494,8 +535,11 @@ func c09Monitors(c *c09Case) (fails []Failure, timing bool) {
 		if c.Conn == "udp" {
 			return false // datagram sockets connect at once
 		}
-		if c.Conn != "accept" || acceptSeq == 0 || acceptSeq > startSeq[call] {
+		if (c.Conn != "accept" && c.Conn != "tls" && c.Conn != "tls-slow") || acceptSeq == 0 || acceptSeq > startSeq[call] {
 			return true
+		}
+		if c.IdleMs > 0 && c.Callers == 1 && call > 0 && c.gap(call-1) >= c.IdleMs {
+			return true // the idle connection may have been closed during the pause: this call may dial again
 		}
 		for _, l := range lossSeq {
 			if rs, ok := retSeq[call]; !ok || l < rs {
@@ -517,7 +561,7 @@ func c09Monitors(c *c09Case) (fails []Failure, timing bool) {
 		if r.DurMs > bound {
 			sig := "call-deadline/" + c.Conn + "/" + c09ActsKey(c)
 			// the two confirmed defects, each only as far as its mechanism explains the delay
-			if c.Conn == "stall" && c.Callers > 1 && r.DurMs <= int64((rank+1)*c.DialMs+c09SlackMs) {
+			if (c.Conn == "stall" || c.Conn == "tls-silent") && c.Callers > 1 && r.DurMs <= int64((rank+1)*c.DialMs+c09SlackMs) {
 				sig = "call-deadline / stalled-dial x concurrent callers"
 			} else if strings.HasPrefix(c.Conn, "noread") && r.Out == "error" && r.DurMs <= int64(c.WriteMs+c09SlackMs) {
 				sig = "call-deadline / send-queue full"
@@ -642,7 +686,7 @@ func c09Coq(c *c09Case) string {
 	if o == nil || o.Fatal != "" {
 		return ""
 	}
-	conn := map[string]string{"accept": "CAccept", "udp": "CAccept", "udp-unreachable": "CAccept", "refuse": "CRefuse", "stall": "CStall", "accept-close": "CAcceptClose", "noread": "CNoRead", "noread-early": fmt.Sprintf("(CNoReadEarly %d)", c09U(c.EarlyMs))}[c.Conn]
+	conn := map[string]string{"accept": "CAccept", "udp": "CAccept", "udp-unreachable": "CAccept", "refuse": "CRefuse", "stall": "CStall", "tls": "CAccept", "tls-slow": fmt.Sprintf("(CSlowAccept %d)", c09U(c.HandshakeMs)), "tls-silent": "CStall", "tls-untrusted": "CRefuse", "accept-close": "CAcceptClose", "noread": "CNoRead", "noread-early": fmt.Sprintf("(CNoReadEarly %d)", c09U(c.EarlyMs))}[c.Conn]
 	var acts []string
 	for _, a := range c.Acts {
 		junk, reply, dup, down := "false", "None", "false", "false"
@@ -710,9 +754,31 @@ func c09Coq(c *c09Case) string {
 	if o.MaxRecv >= 0 {
 		held = fmt.Sprintf("(Some %d)", o.MaxRecv)
 	}
-	return fmt.Sprintf("mkcase (mkcfg %d %d %d %d %d) %s [%s] %d %d %d %d %s %s %s %s [%s] [%s] (%d, %d, %d)",
-		c09U(c.DialMs), c09U(c.WriteMs), c09U(c.ReadMs), c.QueueLen, objMax, conn, strings.Join(acts, "; "),
-		c.Callers, c.Calls, c09U(c.eff()), c09U(c.GapMs), coqBool(c.OneWay), coqBool(c.Prime && c.Callers > 1), pred, held, strings.Join(obs, "; "), strings.Join(evs, "; "),
+	gl := []string{c09CoqN(c09U(c.GapMs))}
+	if len(c.Gaps) > 0 {
+		gl = nil
+		for _, g := range c.Gaps {
+			gl = append(gl, c09CoqN(c09U(g)))
+		}
+	}
+	idle := 60000
+	if c.IdleMs > 0 {
+		idle = c09U(c.IdleMs)
+	}
+	// the number of connections the peer accepted is definite where idle periods are the only reason to dial again
+	nconn := "None"
+	if c.Predict && c.IdleMs > 0 && c.Callers == 1 && (c.Conn == "accept" || c.Conn == "tls") {
+		acc := 0
+		for _, e := range o.Events {
+			if e.Kind == "accept" {
+				acc++
+			}
+		}
+		nconn = fmt.Sprintf("(Some %d)", acc)
+	}
+	return fmt.Sprintf("mkcase (mkcfg %d %d %d %d %d %d) %s [%s] %d %d %d [%s] %s %s %s %s %s [%s] [%s] (%d, %d, %d)",
+		c09U(c.DialMs), c09U(c.WriteMs), c09U(c.ReadMs), c.QueueLen, objMax, idle, conn, strings.Join(acts, "; "),
+		c.Callers, c.Calls, c09U(c.eff()), strings.Join(gl, "; "), coqBool(c.OneWay), coqBool(c.Prime && c.Callers > 1), pred, nconn, held, strings.Join(obs, "; "), strings.Join(evs, "; "),
 		c09NN(o.QueueLen), c09NN(o.InvokeNum), len(o.Pending))
 }
 
@@ -899,6 +965,90 @@ func c09Gen(tier string, rng *rand.Rand) []c09Case {
 		c.Calls = 3
 		c.Warm = false
 		c.Predict = false
+		cs = append(cs, c)
+		// ---- ssl endpoints: connection establishment = TCP connect + TLS handshake, both inside the dial step
+		c = base("tls-mixed-sequential", "tls", nil)
+		T = c.TimeoutMs
+		c.Acts = []c09Act{{"reply", 0}, {"reply", r10(T / 2)}, {"none", 0}, {"reply", r10(T * 3 / 2)}, {"dup", 10}, {"forged", 20}, {"reply", 0}}
+		c.Calls = len(c.Acts)
+		c.GapMs = 10
+		cs = append(cs, c)
+		c = base("tls-reply-concurrent", "tls", rep(pick(0, 30)))
+		c.Callers = pick(2, 8, 16)
+		cs = append(cs, maybePrime(c))
+		c = base("tls-silent-concurrent", "tls", []c09Act{{Do: "none"}})
+		c.Callers = pick(2, 8)
+		cs = append(cs, prime(c))
+		c = base("tls-close-on-request", "tls", []c09Act{{Do: "close"}})
+		c.QueueLen = 100
+		c.Callers = pick(1, 3)
+		cs = append(cs, c)
+		// the peer accepts the TCP connection and never answers the handshake: the dial step must give up at DialTimeout
+		c = base("tls-handshake-silent", "tls-silent", []c09Act{{Do: "none"}})
+		c.TimeoutMs = pick(100, 200)
+		c.Calls = pick(1, 2)
+		cs = append(cs, c)
+		c = base("tls-handshake-silent-concurrent", "tls-silent", []c09Act{{Do: "none"}})
+		c.TimeoutMs = pick(100, 200)
+		c.DialMs = 300
+		c.Callers = pick(2, 3)
+		cs = append(cs, c)
+		// ... or answers it late, inside / outside DialTimeout
+		c = base("tls-handshake-slow", "tls-slow", []c09Act{{Do: "reply"}})
+		c.DialMs = 400
+		c.HandshakeMs = pick(100, 150, 200)
+		c.TimeoutMs = pick(300, 350)
+		c.Calls = 3
+		c.GapMs = 10
+		cs = append(cs, c)
+		c = base("tls-handshake-slow-concurrent", "tls-slow", []c09Act{{Do: "reply", DelayMs: 20}})
+		c.DialMs = 400
+		c.HandshakeMs = pick(100, 200)
+		c.TimeoutMs = 300
+		c.Callers = pick(2, 4)
+		cs = append(cs, c)
+		c = base("tls-handshake-too-slow", "tls-slow", []c09Act{{Do: "reply"}})
+		c.DialMs = 300
+		c.HandshakeMs = 600
+		c.TimeoutMs = pick(100, 200)
+		cs = append(cs, c)
+		c = base("tls-untrusted-certificate", "tls-untrusted", []c09Act{{Do: "reply"}})
+		c.Callers = pick(1, 3)
+		c.Calls = pick(1, 2)
+		if c.Callers > 1 {
+			c.Calls = 1
+		}
+		cs = append(cs, c)
+		// ---- idle periods: the sender goroutine checks the idle timeout once per second and closes the connection; the next
+		// call dials again and must return by its deadline all the same (idle timeouts around the one-second tick)
+		// (an idle timeout that is an exact multiple of the one-second tick is closed at that tick or the next depending on
+		// the ticker's jitter: such values are left to the monitors-only scenario below)
+		for _, idle := range []int{pick(300, 700), pick(900, 1100), pick(1200, 1500, 1900)} {
+			c = base("idle-then-call", "accept", rep(pick(0, 20)))
+			c.IdleMs = idle
+			c.Calls = 3
+			c.Gaps = []int{idle + 1150, pick(50, idle/2)}
+			if tier != "thorough" && idle > 1000 {
+				c.Calls = 2
+			}
+			cs = append(cs, c)
+		}
+		c = base("idle-then-concurrent-callers", "accept", rep(pick(0, 20)))
+		c.IdleMs = pick(400, 1000, 1200)
+		c.Callers = pick(2, 6)
+		c.Calls = 2
+		c.Gaps = []int{c.IdleMs + 1150}
+		c.Predict = false // the callers' second calls start at their own pace: monitors and trace validation only
+		cs = append(cs, c)
+		c = base("idle-then-call-tls", "tls", rep(0))
+		c.IdleMs = pick(500, 900, 1100)
+		c.Calls = 2
+		c.Gaps = []int{c.IdleMs + 1150}
+		cs = append(cs, c)
+		c = base("idle-after-timeout", "accept", []c09Act{{"none", 0}, {"reply", 0}})
+		c.IdleMs = pick(400, 1000)
+		c.Calls = 3
+		c.Gaps = []int{c.IdleMs + 1150, 50}
 		cs = append(cs, c)
 		// datagram transport: no connection to establish or lose
 		c = base("udp-mixed-sequential", "udp", nil)
